@@ -237,6 +237,10 @@ func runC12(o *hx.Out, r *hx.Rand, thorough bool) {
 		// HTTP: two bases per registry, both ways of registering
 		for k := 0; k < 2; k++ {
 			base := bases[r.Intn(len(bases))]
+			if k == 1 && len(reg) > 0 && r.Chance(35) {
+				// a literal percent sign in the base path is a character like any other
+				base = []string{"/p%q", "/100%/", "/rpc%20api", "/a%b/nested"}[r.Intn(4)]
+			}
 			for _, carrier := range []string{"httpgrpc.Server", "HandleServices"} {
 				var h http.Handler
 				func() {
